@@ -160,6 +160,21 @@ Definition replayable (r : report) : bool :=
   truthy_time (rp_start r) && end_ok (rp_end r) && opt_result_ok (rp_session_setup r) && opt_result_ok (rp_session_teardown r)
   && distinct (map (fun u => m_name (s_meta_of u)) (rp_suites r)) && forallb suite_ok (rp_suites r).
 
+(* `finished r` = nothing is in progress: the report, every suite, every result that was started and every step has an end time
+   (skipped / disabled tests count as ended). *)
+Definition step_ended (st : step) : bool := truthy_time (st_end st).
+Definition result_ended (r : result) : bool := truthy_time (r_end r) && forallb step_ended (r_steps r).
+Definition opt_result_ended (o : option result) : bool := match o with Some r => result_ended r | None => true end.
+Definition test_ended (t : test_result) : bool := bypassed (t_result t) || result_ended (t_result t).
+Fixpoint suite_ended (s : suite_result) : bool :=
+  match s with
+  | SuiteResult _ _ e su td tests subs =>
+      truthy_time e && opt_result_ended su && opt_result_ended td && forallb test_ended tests && forallb suite_ended subs
+  end.
+Definition finished (r : report) : bool :=
+  truthy_time (rp_end r) && opt_result_ended (rp_session_setup r) && opt_result_ended (rp_session_teardown r)
+  && forallb suite_ended (rp_suites r).
+
 (* what a ReportWriter can rebuild of a report: everything except the attributes no event carries *)
 Definition tree (r : report) : report :=
   mkReport [84; 101; 115; 116; 32; 82; 101; 112; 111; 114; 116]%N [] (rp_start r) (rp_end r) None 1
